@@ -369,6 +369,7 @@ def Expr.ok : Expr → Prop
   -- `with` / `assert` from well-formed trees: the interstitial lists hold layout markers only
   | .wth env body awc _ asc b a => env.ok ∧ body.ok ∧ cm awc = [] ∧ asc = [] ∧ TrivOk b ∧ TrivOk a
   | .asrt cond body aac bsc b a => cond.ok ∧ body.ok ∧ cm aac = [] ∧ cm bsc = [] ∧ TrivOk b ∧ TrivOk a
+  | .sel e attrs _ ab b a => e.ok ∧ attrs ≠ [] ∧ (∀ x ∈ attrs, solidT x) ∧ cm ab = [] ∧ TrivOk b ∧ TrivOk a
 def allOk : List Expr → Prop
   | [] => True
   | e :: rest => e.ok ∧ allOk rest
@@ -400,6 +401,7 @@ def Expr.lexOut : Expr → Bool → List Lex
   -- the trailing trivia of an `assert` are written after its `;`, in front of the body
   | .asrt cond body _ _ b a, na =>
     cm b ++ [.tok kwAssert] ++ cond.lexOut false ++ [.tok [';']] ++ (if na then [] else cm a) ++ body.lexOut false
+  | .sel e attrs _ _ b a, na => cm b ++ e.lexOut false ++ attrLex attrs ++ (if na then [] else cm a)
 def lexOutAll : List Expr → List Lex
   | [] => []
   | e :: rest => e.lexOut false ++ lexOutAll rest
@@ -522,6 +524,7 @@ theorem ok_after {e : Expr} (h : e.ok) : TrivOk e.after := by
   | app n x g fa b a => exact h.2.2.2.2
   | wth e bd c g s b a => exact h.2.2.2.2.2
   | asrt c bd x y b a => exact h.2.2.2.2.2
+  | sel e ats g ab b a => exact h.2.2.2.2.2
 
 theorem ok_before {e : Expr} (h : e.ok) : TrivOk e.before := by
   cases e with
@@ -533,6 +536,7 @@ theorem ok_before {e : Expr} (h : e.ok) : TrivOk e.before := by
   | app n x g fa b a => exact h.2.2.2.1
   | wth e bd c g s b a => exact h.2.2.2.2.1
   | asrt c bd x y b a => exact h.2.2.2.2.1
+  | sel e ats g ab b a => exact h.2.2.2.2.1
 
 theorem leafBefore_nil' (k : LeafKind) (t : Text) (i : Nat) (inl : Bool) : leafBefore k t [] i inl = [] := by
   unfold leafBefore; split
@@ -575,10 +579,26 @@ theorem rebuildAP_indent_split {e : Expr} (h : e.before = []) (na : Bool) (i : N
   | wth e bd c g s b a =>
     simp only [Expr.before] at h; subst h
     simp [Expr.rebuildAP, addTriviaP, fmtP, fmtGoP, indentP]
+  | sel e ats g ab b a =>
+    simp only [Expr.before] at h; subst h
+    simp [Expr.rebuildAP, addTriviaP, fmtP, fmtGoP, indentP]
   | asrt c bd x y b a =>
     simp only [Expr.before] at h; subst h
     simp only [Expr.rebuildAP, addTriviaP_nil_split, List.cons_append, concat_cons, text_ws]
     rw [endsWithNL_spaces_append i (by simp [addTriviaP, fmtP, fmtGoP, indentP, kwAssert])]
+
+theorem attrP_lex : ∀ (attrs : List Text), attrs ≠ [] → (∀ x ∈ attrs, solidT x) →
+    lexOf (FP.tok ['.'] :: attrP attrs) = attrLex attrs ∧ Solid (FP.tok ['.'] :: attrP attrs)
+  | [], h, _ => absurd rfl h
+  | [a], _, hs => by
+    refine ⟨by simp [attrP, attrLex], ?_⟩
+    exact solid_tokc '.' (by decide) (solid_tok (hs a (List.mem_cons_self ..)))
+  | a :: b :: rest, _, hs => by
+    have ih := attrP_lex (b :: rest) (by simp) (fun x hx => hs x (List.mem_cons_of_mem _ hx))
+    refine ⟨?_, ?_⟩
+    · simp only [attrP, attrLex, lexOf_tok] at ih ⊢
+      rw [ih.1]
+    · exact solid_tokc '.' (by decide) (solid_cons (p := FP.tok a) (hs a (List.mem_cons_self ..)) ih.2)
 
 theorem dropCharsP_ws_spaces (i : Nat) (rest : List FP) (hi : i ≠ 0) :
     dropCharsP (.ws (spaces i) :: rest) i = rest := by
@@ -728,6 +748,7 @@ theorem rebuildAP_lex : (e : Expr) → e.ok → ∀ (na : Bool) (i : Nat) (b : B
       | app n x g fa b a => exact hv.2.2.2.2
       | wth e bd c g s b a => exact hv.2.2.2.2.2
       | asrt c bd x y b a => exact hv.2.2.2.2.2
+      | sel e ats g ab b a => exact hv.2.2.2.2.2
     have hbt := bindingTailP_lex (trivOk_append hva (ite_nil_ok na ha)) i
     have hi := indentP_lex i b
     simp only [Expr.rebuildAP, Expr.lexOut]
@@ -870,6 +891,28 @@ theorem rebuildAP_lex : (e : Expr) → e.ok → ∀ (na : Bool) (i : Nat) (b : B
     refine ⟨?_, solid_append (solid_append hat.2 (solid_wsc _ solid_nil)) ihb.2⟩
     simp only [lexOf_append, hat.1, lexOf_ws, lexOf_nil, ihb.1]
     simp [hcond.1, cm_ite_nil]
+  | .sel expr attrs g ab before after, hok, na, i, b => by
+    obtain ⟨he, hne, hat, _, hb, ha⟩ := hok
+    have ihe := rebuildAP_lex expr he false i true
+    simp only [Expr.rebuildAP, Expr.lexOut]
+    have hap := attrP_lex attrs hne hat
+    have hatp := addTriviaP_lex (core := expr.rebuildAP false i true ++
+        [FP.ws (selSep (concat (expr.rebuildAP false i true)) g ab i), FP.tok ['.']] ++ attrP attrs)
+      hb (ite_nil_ok na ha)
+      (by
+        rw [show expr.rebuildAP false i true ++ [FP.ws (selSep (concat (expr.rebuildAP false i true)) g ab i), FP.tok ['.']] ++
+            attrP attrs = expr.rebuildAP false i true ++ (FP.ws (selSep (concat (expr.rebuildAP false i true)) g ab i) ::
+            (FP.tok ['.'] :: attrP attrs)) from by simp]
+        exact solid_append ihe.2 (solid_wsc _ hap.2)) i b
+    refine ⟨?_, hatp.2⟩
+    rw [hatp.1]
+    have : lexOf (expr.rebuildAP false i true ++ [FP.ws (selSep (concat (expr.rebuildAP false i true)) g ab i), FP.tok ['.']] ++
+        attrP attrs) = expr.lexOut false ++ attrLex attrs := by
+      rw [show expr.rebuildAP false i true ++ [FP.ws (selSep (concat (expr.rebuildAP false i true)) g ab i), FP.tok ['.']] ++
+          attrP attrs = expr.rebuildAP false i true ++ (FP.ws (selSep (concat (expr.rebuildAP false i true)) g ab i) ::
+          (FP.tok ['.'] :: attrP attrs)) from by simp]
+      rw [lexOf_append, lexOf_ws, hap.1, ihe.1]
+    rw [this]; simp [cm_ite_nil]
 theorem rebuildAllP_lex : (es : List Expr) → allOk es → ∀ (i : Nat) (b : Bool),
     ((rebuildAllP es i b).map lexOf).flatten = lexOutAll es ∧ ∀ x ∈ rebuildAllP es i b, Solid x
   | [], _, i, b => ⟨rfl, by intro x hx; cases hx⟩
@@ -892,6 +935,7 @@ theorem previewP_lex : (e : Expr) → e.ok → ∀ (i : Nat) (p : List FP), e.pr
   | .app .., _, i, p, h => by simp [Expr.previewP] at h
   | .wth .., _, i, p, h => by simp [Expr.previewP] at h
   | .asrt .., _, i, p, h => by simp [Expr.previewP] at h
+  | .sel .., _, i, p, h => by simp [Expr.previewP] at h
   | .list value ml inner before after, hok, i, p, h => by
     obtain ⟨hv, hin, hb, ha⟩ := hok
     have ih := fun i b => rebuildAllP_lex value hv i b
